@@ -496,6 +496,9 @@ def _byte(x):
     return x
 
 
+HASH_BY_VALUE = False
+
+
 class SBytes:
     """bytes of concrete length whose elements are python ints or z3 BV8 terms"""
 
@@ -601,7 +604,9 @@ class SBytes:
         return SBytes.lift(o)._lex(self, False)
 
     def __hash__(self):
-        return id(self)
+        # HASH_BY_VALUE (opt-in per harness): all byte strings of one length share a hash, so dict / set look-ups keyed
+        # by symbolic bytes are decided by == (which forks like any comparison) - a symbolic model of the container
+        return hash(('SBytes', len(self.b))) if HASH_BY_VALUE else id(self)
 
     def __bool__(self):
         return len(self.b) > 0
@@ -638,6 +643,15 @@ class SBytes:
         if len(p) > len(self):
             return False
         return self[:len(p)] == p
+
+    def lstrip(self, chars=None):
+        if chars is None:
+            raise EngineLimit("bytes.lstrip() without argument")
+        cs = list(bytes(chars))
+        k = 0
+        while k < len(self.b) and bool(s_or(*[self[k] == c for c in cs])):      # forks per leading byte
+            k += 1
+        return self[k:]
 
     def endswith(self, p):
         if len(p) > len(self):
